@@ -60,13 +60,27 @@ impl Record {
     }
 
     pub fn find_field(&self, symbol_map: &SymbolMap, name: &EcoString) -> Option<RecordFieldId> {
+        self.find_field_in(symbol_map, name, &mut Vec::new())
+    }
+
+    // `visited` guards against classes that (transitively) inherit from themselves
+    fn find_field_in(
+        &self,
+        symbol_map: &SymbolMap,
+        name: &EcoString,
+        visited: &mut Vec<RecordId>,
+    ) -> Option<RecordFieldId> {
         if let Some(field_id) = self.name_to_record_field.get(name) {
             return Some(*field_id);
         }
 
         for parent_id in &self.parent_list {
+            if visited.contains(parent_id) {
+                continue;
+            }
+            visited.push(*parent_id);
             let parent = symbol_map.record(*parent_id);
-            if let Some(field_id) = parent.find_field(symbol_map, name) {
+            if let Some(field_id) = parent.find_field_in(symbol_map, name, visited) {
                 return Some(field_id);
             }
         }
@@ -79,13 +93,26 @@ impl Record {
     }
 
     pub fn is_subclass_of(&self, symbol_map: &SymbolMap, other_id: RecordId) -> bool {
+        self.is_subclass_of_in(symbol_map, other_id, &mut Vec::new())
+    }
+
+    fn is_subclass_of_in(
+        &self,
+        symbol_map: &SymbolMap,
+        other_id: RecordId,
+        visited: &mut Vec<RecordId>,
+    ) -> bool {
         if self.parent_list.contains(&other_id) {
             return true;
         }
 
         for parent_id in &self.parent_list {
+            if visited.contains(parent_id) {
+                continue;
+            }
+            visited.push(*parent_id);
             let parent = symbol_map.record(*parent_id);
-            if parent.is_subclass_of(symbol_map, other_id) {
+            if parent.is_subclass_of_in(symbol_map, other_id, visited) {
                 return true;
             }
         }
